@@ -4,7 +4,7 @@ import core
 STREAMS = ["c05"]
 NEEDS_BINARY = True
 HARNESS_ARGS = ("-rdpgw", os.path.join(core.BUILD, "rdpgw"))
-RULE = ("the real rdpgw binary started with 12 mechanism subsets (every startable one: local needs TLS, kerberos needs keytab and "
+RULE = ("the real rdpgw binary started with 14 mechanism subsets (two spell the local mechanism 'basic') (every startable one: local needs TLS, kerberos needs keytab and "
         "krb5.conf, openid needs the IdP; plus OpenID alone and none) against a scriptable authentication service on a unix "
         "socket (Basic verdict table; NTLM through the real verifier) x methods {RDG_OUT_DATA with upgrade, GET, POST, RDG_IN_DATA} "
         "x ~37 Authorization shapes: absent, empty, bare keywords, truncated and wrong-case schemes, disabled schemes, malformed "
